@@ -1904,10 +1904,15 @@ static int init_matrix (
 	{
 		nzcnt = clen[basis[i]];
 		beg = cbeg[basis[i]];
-		uc_inf[i].nzcnt = nzcnt;
+		uc_inf[i].nzcnt = 0;
 		for (j = 0; j < nzcnt; j++)
 		{
+			/* an entry that the filling loop below skips (a stored zero) gets no
+			 * slot: every slot that is laid out is written */
+			if (!(EGLPNUM_TYPENAME_EGlpNumIsNeqZero (in_uccoef[beg + j], f->fzero_tol)))
+				continue;
 			r = in_ucindx[beg + j];
+			uc_inf[i].nzcnt++;
 			ur_inf[r].nzcnt++;
 		}
 	}
